@@ -118,7 +118,8 @@ CHECKS['C05'] = dict(
     text='Theorems for EVERY history of send_frame calls and sender steps, every fragment size >= 64 or none, both framings '
          '(props/C05.v): for each stream, written ++ still-queued = the concatenation of the fragment lists of the frames queued '
          'for it in queue order (so queue order = wire order per stream, fragments contiguous within their stream, nothing lost '
-         'or duplicated, other streams may interleave); the priority frame goes first; at the receiver appending a frame touches '
+         'or duplicated, other streams may interleave); the priority frame goes first, and with send_priority_frame calls anywhere in '
+         'the history the same holds for every stream no priority frame is queued on (C05_per_stream_with_priority); at the receiver appending a frame touches '
          'only its own stream\'s reassembly entry, so for ANY interleaving the answers for a stream equal feeding that stream '
          'alone. The pre-fix rotate-to-back behaviour is proved to break the order (defect repaired by a fix: commit). Tied to '
          'rsocket_base.py by an in-Coq correspondence on a real server with a gated transport (history of queue/sender events '
@@ -222,7 +223,9 @@ CHECKS['C01'] = dict(
          'concurrent mixes of the five interaction models from either side, payloads 0..420 bytes, fragment sizes none/64/100, '
          'byte-stream framing re-chunked at random and message framing, late futures, paced publishers; per direction Coq checks '
          'dispatched = receive(chunks read) and, per stream, = expected_rx(frames the real sender queued); plus the delivery oracle on '
-         'the recording applications (exactly once, byte for byte, in order, right interaction, right caller). Above the pipeline, '
+         'the recording applications (exactly once, byte for byte, in order, right interaction, right caller). '
+         'C01_end_to_end_with_priority: the same for histories with send_priority_frame calls (SETUP queued while requests are '
+         'already waiting, on connect and every reconnect), for every stream no priority frame is on. Above the pipeline, '
          'model/Network.v joins two endpoint models by links with exactly that guarantee (per stream first in first out, streams may '
          'overtake each other) and C01_network_delivery proves for EVERY history of the two endpoints, each side and stream: the payloads '
          'the application is given (handler arguments, subscriber elements, awaitable results) are an in-order, repetition-free selection '
